@@ -67,7 +67,6 @@ Fixpoint efi_run (fuel : nat) (p : profile) (m : mem) (it : efi_iter) : list str
   end.
 
 (* nth(k) on a fresh iterator for k around the number of entries, and count() *)
-Definition nth_ks (n : N) : list N := [0; 1; n - 1; n; n + 1].
 Definition lines_efi_nth (p : profile) (m : mem) (i : efi_iter) : list string :=
   (map (fun k => line "efi_nth" (sN k ++ " " ++
                   match efi_nth p m i (N.to_nat k) with
